@@ -239,6 +239,7 @@ def run(ch, config, res):
     world = World(ch, world_cfg, client_impl=config.get("client", "real"), read_timeout=5)
     srv = world.server
     srv.data_variation = False
+    srv.cap_variation = True
     srv.scripts[b"x"] = b"keep;\r\n"
     hooks = Hooks(world)
     hooks.install()
